@@ -31,6 +31,8 @@ from . import query as Q
 def components(atom):
     """Split an access path into its dotted components, keeping call
     parentheses and subscripts attached to their component."""
+    if atom.startswith('via:'):
+        atom = atom[4:]
     if atom.startswith('param:'):
         atom = atom[6:]
     out, cur, depth, q = [], '', 0, None
@@ -91,6 +93,16 @@ def has(atoms, *pattern):
     return any(path_matches(a, pattern) for a in atoms)
 
 
+def direct(atoms):
+    """Only the access paths the value *is* (or is an element of), without
+    those that merely flowed into an opaque computation of it."""
+    return {a for a in atoms if not a.startswith('via:')}
+
+
+def param_of(atoms, name):
+    return ('param:' + name) in atoms or ('via:param:' + name) in atoms
+
+
 def has_const(atoms, value):
     return ('const:' + repr(value)) in atoms
 
@@ -116,12 +128,15 @@ def paths(atoms):
 class Effect:
     """A call found in a function or one of the helpers it calls, with the
     binding under which its arguments should be read."""
-    __slots__ = ('call', 'fn', 'bind', 'chain', 'facts', 'outer')
+    __slots__ = ('call', 'fn', 'bind', 'chain', 'facts', 'outer',
+                 'outer_with')
 
-    def __init__(self, call, fn, bind, chain, facts, outer=frozenset()):
+    def __init__(self, call, fn, bind, chain, facts, outer=frozenset(),
+                 outer_with=frozenset()):
         self.call, self.fn, self.bind, self.chain = call, fn, bind, chain
         self.facts = facts
         self.outer = outer      # control atoms of the calls leading here
+        self.outer_with = outer_with   # `with` contexts of those calls
 
     def arg(self, pos=None, kw=None):
         """Atoms of a positional/keyword argument (empty set if absent)."""
@@ -167,6 +182,31 @@ class Effect:
     def control(self):
         return self.facts.control(self.call, self.fn, self.bind) | set(
             self.outer)
+
+    def withs(self):
+        """Atoms of the context expressions of every `with` statement this
+        call executes under (in its function or in the callers on the
+        path from the analysed function)."""
+        return self.facts.withs(self.call, self.fn, self.bind) | set(
+            self.outer_with)
+
+    def kw_const(self, name, default=None):
+        k = Q.kwarg(self.call, name)
+        if isinstance(k, ast.Constant):
+            return k.value
+        return default
+
+    def loops(self):
+        """Enclosing for-loops / comprehensions of the call (innermost
+        first) inside its own function."""
+        out = []
+        n = self.call
+        while n is not None and n is not self.fn.node:
+            n = getattr(n, '_parent', None)
+            if isinstance(n, (ast.For, ast.ListComp, ast.GeneratorExp,
+                              ast.SetComp, ast.DictComp)):
+                out.append(n)
+        return out
 
 
 class Facts:
@@ -238,16 +278,18 @@ class Facts:
         helpers reachable through at most `depth` resolved calls) with
         pred(Effect) true."""
         out = []
-        self._effects(fn, None, pred, depth, (), set(), out, frozenset())
+        self._effects(fn, None, pred, depth, (), set(), out, frozenset(),
+                      frozenset())
         return out
 
-    def _effects(self, fn, bind, pred, depth, chain, stack, out, outer):
+    def _effects(self, fn, bind, pred, depth, chain, stack, out, outer,
+                 owith):
         if fn.fq in stack:
             return
         stack = stack | {fn.fq}
         nested_called = set()
         for c in Q.calls(fn.node, nested=False):
-            eff = Effect(c, fn, bind, chain, self, outer)
+            eff = Effect(c, fn, bind, chain, self, outer, owith)
             if pred(eff):
                 out.append(eff)
             if depth > 0:
@@ -259,7 +301,25 @@ class Facts:
                     self._effects(callee, b, pred, depth - 1,
                                   chain + (callee.qualname,), stack, out,
                                   outer | frozenset(self.control(
+                                      c, fn, bind)),
+                                  owith | frozenset(self.withs(
                                       c, fn, bind)))
+                # repository functions passed as values (callbacks,
+                # functools.partial, map, ...): unbound
+                for a in list(c.args) + [k.value for k in c.keywords]:
+                    if isinstance(a, (ast.Name, ast.Attribute)):
+                        try:
+                            r = self.repo.resolve_expr(
+                                fn.module, a, self.repo.local_scope(fn))
+                        except Exception:
+                            r = None
+                        if r is not None and r[0] == 'func' and \
+                                r[1].fq not in stack:
+                            self._effects(
+                                r[1], None, pred, depth - 1,
+                                chain + (r[1].qualname,), stack, out,
+                                outer | frozenset(self.control(c, fn, bind)),
+                                owith | frozenset(self.withs(c, fn, bind)))
         # nested functions never called directly (callbacks): unbound
         for n in walk_no_nested(fn.node):
             if isinstance(n, (ast.FunctionDef, ast.AsyncFunctionDef)) and \
@@ -267,7 +327,8 @@ class Facts:
                     n._func.fq not in nested_called:
                 self._effects(n._func, None, pred, depth,
                               chain + (n._func.qualname,), stack, out,
-                              outer | frozenset(self.control(n, fn, bind)))
+                              outer | frozenset(self.control(n, fn, bind)),
+                              owith | frozenset(self.withs(n, fn, bind)))
 
     def _is_nested_in(self, callee, fn):
         p = getattr(callee.node, '_parent', None)
@@ -277,15 +338,99 @@ class Facts:
             p = getattr(p, '_parent', None)
         return False
 
+    def reach(self, fn, depth=2):
+        """fn, its nested functions, and the repository functions they call
+        (resolved callees, up to `depth` calls away)."""
+        seen, out = set(), []
+
+        def go(f, d):
+            if f.fq in seen:
+                return
+            seen.add(f.fq)
+            out.append(f)
+            for n in ast.walk(f.node):
+                if isinstance(n, (ast.FunctionDef, ast.AsyncFunctionDef)) \
+                        and n is not f.node and getattr(n, '_func', None):
+                    go(n._func, d)
+            if d > 0:
+                for c in Q.calls(f.node, nested=False):
+                    callee = self.flow.resolve_call(c, f)
+                    if callee is not None:
+                        go(callee, d - 1)
+        go(fn, depth)
+        return out
+
+    def gen_reuse(self, fn):
+        """Locals bound (once) to a one-shot iterator -- a generator
+        expression, map/filter/zip/iter, or a call of a repository generator
+        function -- that are consumed at two sites one of which can run
+        after the other: the second consumer sees an exhausted iterator.
+        Returns [(name, first site, second site)]."""
+        defs = self.flow.defs(fn.node)
+        out = []
+        g = None
+        for name, ds in defs.items():
+            if len(ds) != 1 or ds[0][0] != 'value' or name in Q.params(
+                    fn.node):
+                continue
+            v = ds[0][1]
+            oneshot = isinstance(v, ast.GeneratorExp)
+            if isinstance(v, ast.Call):
+                fname = unparse(v.func)
+                if fname in ('map', 'filter', 'zip', 'iter', 'reversed',
+                             'enumerate', 'chain', 'itertools.chain',
+                             'accumulate', 'itertools.accumulate'):
+                    oneshot = True
+                else:
+                    callee = self.flow.resolve_call(v, fn)
+                    if callee is not None and any(
+                            isinstance(n, (ast.Yield, ast.YieldFrom))
+                            for n in walk_no_nested(callee.node)):
+                        oneshot = True
+            if not oneshot:
+                continue
+            sites = []
+            for n in walk_no_nested(fn.node):
+                if isinstance(n, ast.Name) and n.id == name and isinstance(
+                        n.ctx, ast.Load):
+                    p = getattr(n, '_parent', None)
+                    if isinstance(p, (ast.For, ast.comprehension)) and \
+                            p.iter is n:
+                        sites.append(n)
+                    elif isinstance(p, ast.Call) and n in p.args:
+                        sites.append(n)
+                    elif isinstance(p, ast.Starred):
+                        sites.append(n)
+                    elif isinstance(p, ast.YieldFrom):
+                        sites.append(n)
+            if len(sites) < 2:
+                continue
+            g = g or self.cfg(fn)
+            for i, a in enumerate(sites):
+                for b in sites[i + 1:]:
+                    try:
+                        sa_, sb = g.stmt_of(a), g.stmt_of(b)
+                    except Exception:
+                        continue
+                    if sa_ is sb or g.reaches(sa_, sb) or g.reaches(sb, sa_):
+                        out.append((name, a, b))
+        return out
+
     def calls_to(self, fn, name, depth=3):
         return self.effects(fn, lambda e: e.name == name, depth)
 
     # -- control facts -------------------------------------------------------
     def guards(self, node, fn):
-        """Test expressions of the if/while/conditional-expression/assert-
-        free constructs enclosing `node` inside fn (innermost first), and
-        the tests of earlier `if ...: return/raise/continue` statements of
-        the enclosing blocks (guard clauses)."""
+        """Test expressions the execution of `node` depends on, inside fn
+        (innermost first): tests of enclosing if/while/conditional
+        expressions, comprehension conditions, earlier operands of a
+        short-circuit operator, and tests of earlier guard clauses
+        (`if ...: return/raise/continue/break`) of the enclosing blocks."""
+        return [t for t, pos in self.guards_pol(node, fn)]
+
+    def guards_pol(self, node, fn):
+        """Like guards(), as (test, polarity): polarity True means the test
+        was true on the way to `node`, False that it was false."""
         out = []
         n = node
         while True:
@@ -293,25 +438,26 @@ class Facts:
             if p is None or n is fn.node:
                 break
             if isinstance(p, (ast.If, ast.While)) and n is not p.test:
-                out.append(p.test)
+                out.append((p.test, n in p.body))
             elif isinstance(p, ast.IfExp) and n is not p.test:
-                out.append(p.test)
+                out.append((p.test, n is p.body))
             elif isinstance(p, (ast.ListComp, ast.GeneratorExp, ast.SetComp,
                                 ast.DictComp)):
                 for g in p.generators:
-                    out.extend(g.ifs)
+                    out.extend((t, True) for t in g.ifs)
             elif isinstance(p, ast.BoolOp) and n in p.values:
-                out.extend(p.values[:p.values.index(n)])
+                out.extend((t, isinstance(p.op, ast.And))
+                           for t in p.values[:p.values.index(n)])
             # guard clauses: earlier siblings that leave the block
             for field in ('body', 'orelse', 'finalbody'):
                 blk = getattr(p, field, None)
                 if isinstance(blk, list) and n in blk:
                     for s in blk[:blk.index(n)]:
                         if isinstance(s, ast.If) and self._leaves(s.body):
-                            out.append(s.test)
+                            out.append((s.test, False))
                         elif isinstance(s, ast.If) and s.orelse and \
                                 self._leaves(s.orelse):
-                            out.append(s.test)
+                            out.append((s.test, True))
             n = p
         return out
 
@@ -362,6 +508,87 @@ class Facts:
                     n.target, ast.Name) and n.target.id == name:
                 out.append(n)
         return out
+
+    def withs(self, node, fn, bind=None):
+        out = set()
+        n = node
+        while n is not None and n is not fn.node:
+            p = getattr(n, '_parent', None)
+            if isinstance(p, (ast.With, ast.AsyncWith)) and n in p.body:
+                for it in p.items:
+                    out |= self.flow.atoms(it.context_expr, fn, bind)
+            n = p
+        return out
+
+    _INV = {'Eq': 'NotEq', 'NotEq': 'Eq', 'Is': 'IsNot', 'IsNot': 'Is',
+            'In': 'NotIn', 'NotIn': 'In', 'Lt': 'GtE', 'GtE': 'Lt',
+            'Gt': 'LtE', 'LtE': 'Gt'}
+
+    def _known_compares(self, t, pos, out):
+        """Comparisons whose truth value is known when test t has truth
+        value `pos`."""
+        if isinstance(t, ast.UnaryOp) and isinstance(t.op, ast.Not):
+            self._known_compares(t.operand, not pos, out)
+        elif isinstance(t, ast.BoolOp):
+            if isinstance(t.op, ast.And) == pos:
+                for v in t.values:
+                    self._known_compares(v, pos, out)
+        elif isinstance(t, ast.Compare) and len(t.ops) == 1:
+            out.append((t, pos))
+
+    def guard_compares(self, node, fn, bind=None):
+        """(operator, left atoms, right atoms) of the comparisons known to
+        hold when `node` executes (operators of guards that were false are
+        inverted: after `if x != A: continue`, `x == A` holds)."""
+        out = []
+        for t, pos in self.guards_pol(node, fn):
+            cs = []
+            self._known_compares(t, pos, cs)
+            for c, p in cs:
+                op = type(c.ops[0]).__name__
+                if not p:
+                    op = self._INV.get(op, 'Not' + op)
+                out.append((op, self.flow.atoms(c.left, fn, bind),
+                            self.flow.atoms(c.comparators[0], fn, bind)))
+        return out
+
+    def stores(self, fn, bind=None):
+        """(target atoms, value atoms, node) of every assignment in fn whose
+        target is an attribute or subscript (a store into an object)."""
+        out = []
+        for n in walk_no_nested(fn.node):
+            tv = []
+            if isinstance(n, ast.Assign):
+                tv = [(t, n.value) for t in n.targets]
+            elif isinstance(n, (ast.AugAssign, ast.AnnAssign)) and \
+                    n.value is not None:
+                tv = [(n.target, n.value)]
+            for t, v in tv:
+                if isinstance(t, (ast.Attribute, ast.Subscript)):
+                    out.append((self.flow.atoms(t, fn, bind),
+                                self.flow.atoms(v, fn, bind), n))
+        return out
+
+    def before(self, fn, pred, node, depth=2):
+        """Some statement of fn that performs an effect matching pred
+        (directly, or in a helper that must perform it) dominates the
+        statement of `node`."""
+        g = self.cfg(fn)
+        tgt = g.stmt_of(node)
+        for c in Q.calls(fn.node, nested=False):
+            ok = pred(Effect(c, fn, None, (), self))
+            if not ok and depth > 0:
+                callee = self.flow.resolve_call(c, fn)
+                if callee is not None:
+                    ok = self.must(callee, pred, depth - 1)
+            if ok:
+                try:
+                    st = g.stmt_of(c)
+                except Exception:
+                    continue
+                if st is not tgt and g.dominates(st, tgt):
+                    return True
+        return False
 
     # -- path facts ----------------------------------------------------------
     def cfg(self, fn):
